@@ -11,6 +11,7 @@ Driver for C04 (sale window and entitlement). One output line per input line.
 * `mint sender=<a> funds=<d:a|-> stage=<n|-> alloc=<n|-> proof=<-|b|j|p.k.i.stage.addr.alloc>` → `ok <obs> cnt=<n>` | `err`
 * `mint_to sender=<a> rcpt=<a> funds=<…>` / `deposit sender=<a> rcpt=<a|->`               → `ok <obs> cnt=<n>` | `err`
 * `upd_start sender=<a> t=<ns>` / `upd_end sender=<a> t=<ns>` / `set_wl sender=<a> wl=<k>` → `ok <obs>` | `err`
+* `menv price=<n> limit=<n> left=<n|-> pp=<0|1> pw=<0|1>` (any other minter message, observed)   → `env <obs>`
 * `price`                                                                                 → `ok cur=<d>:<a> wlp=<d>:<a>|-` | `err`
 
 `<obs>` = `st=<start> en=<end|-> wl=<k|-> left=<n|->`.
@@ -119,6 +120,12 @@ def c04Line (s : State) (line : String) : State × String :=
     | some "set_wl" => do
       let a ← natKv ws "sender"; let k ← natKv ws "wl"
       pure (answer s (.setWhitelist a k) none)
+    | some "menv" => do
+      let p ← natKv ws "price"; let l ← natKv ws "limit"; let n ← optNatKv ws "left"
+      let pp ← boolKv ws "pp"; let pw ← boolKv ws "pw"
+      match step s (.minterEnv p l n pp pw) with
+      | .ok s' => pure (s', s!"env {obs s'}")
+      | .error _ => pure (s, s!"env {obs s}")
     | some "price" =>
       match queryMintPrice s with
       | .ok (cur, wlp) =>
